@@ -166,11 +166,13 @@ def run(pid, tier, seed):
     hist = []
     for h in range(nh):
         long_stream = (h % 3 == 2)     # many medium frames: kilobytes flow through without the buffer ever being empty
-        nf = rng.randint(8, 30) if long_stream else rng.randint(0, 6)
+        nf = rng.randint(8, 30) if long_stream else (rng.randint(3, 5) if h in (0, 1) else rng.randint(0, 6))
         frames = []
         for _ in range(nf):
             r = rng.random()
-            if long_stream:
+            if h in (0, 1) and len(frames) == 1:
+                ln = 65535 - h          # every run has frames of the two largest sizes, between smaller ones
+            elif long_stream:
                 ln = rng.choice([rng.randint(100, 1500), rng.randint(0, 40), 1460, 512])
             elif r < 0.04 and tier == "quick" or r < 0.1 and tier != "quick":
                 ln = rng.choice([65535, 65534, 65280, 32768])
